@@ -17,7 +17,10 @@ _T = "SE.Proofs.C11."
 THEOREMS = [_T + n for n in [
     "C11_negative_rejected", "C11_dispatch", "C11_exact", "C11_valid", "C11_contains",
     "C11_result_is_widened_extent", "C11_bounds_extend", "C11_monotone", "C11_zero_buffer",
-    "C11_shapely_partial"]]
+    "C11_shapely_partial",
+    "C11_pipeline_contracts_ideal", "C11_pipeline_scaling", "C11_pipeline_in_domain", "C11_pipeline_clip_is_domain",
+    "C11_pipeline_contains", "C11_pipeline_covers_buffers", "C11_pipeline_exact_ideal", "C11_pipeline_monotone_ideal",
+    "C11_pipeline_zero_vs_tiny_buffer", "C11_pipeline_bounds_extend"]]
 LEVEL_TEXT = ("Lean theorems over the model of buffer_geometry: for time stamps, intervals and boxes the result is exactly the "
               "interval / box widened by the buffers with the clamps at time 0, frequency 0 and MAX_FREQUENCY; it is valid, "
               "contains the original as a point set, is exactly the widened extent inside the domain, its bounds extend by the "
@@ -460,6 +463,186 @@ def _symbolic_ties(ctx):
                 setattr(ops, n, v)
 
 
+# ---- the shapely pipeline: symbolic stand-ins for numpy coordinate arrays, shapely and json
+class _SymArr:
+    """an (n, 2) coordinate array of symbolic numbers: what the callbacks of `shapely.transform` receive"""
+
+    def __init__(self, rows):
+        self.rows = [list(r) for r in rows]
+
+    def _zip(self, o, fn):
+        if isinstance(o, _SymArr):
+            cols = None
+            other = o.rows
+        else:
+            other = None
+            try:
+                cols = list(o)
+            except TypeError:
+                cols = [o, o]
+            if len(cols) != 2:
+                raise TypeError("cannot broadcast against an (n, 2) array")
+        out = []
+        for i, r in enumerate(self.rows):
+            c = other[i] if other is not None else cols
+            out.append([fn(Sym.lift(r[0]), c[0]), fn(Sym.lift(r[1]), c[1])])
+        return _SymArr(out)
+
+    __array_ufunc__ = None     # numpy operands defer to the reflected methods below
+
+    def __mul__(self, o): return self._zip(o, lambda a, b: a * b)
+    def __rmul__(self, o): return self._zip(o, lambda a, b: b * a)
+    def __truediv__(self, o): return self._zip(o, lambda a, b: a / b)
+    def __add__(self, o): return self._zip(o, lambda a, b: a + b)
+    def __radd__(self, o): return self._zip(o, lambda a, b: b + a)
+    def __sub__(self, o): return self._zip(o, lambda a, b: a - b)
+    def __len__(self): return len(self.rows)
+    def __iter__(self): return iter(self.rows)
+
+    def __getitem__(self, k):
+        if isinstance(k, tuple) and len(k) == 2 and isinstance(k[0], slice) and isinstance(k[1], int):
+            return [r[k[1]] for r in self.rows[k[0]]]
+        return self.rows[k]
+
+    @property
+    def shape(self): return (len(self.rows), 2)
+
+    @property
+    def T(self): return [[r[0] for r in self.rows], [r[1] for r in self.rows]]
+
+
+class _SymShape:
+    """a shapely geometry seen through one generic point and its bounding box (symbolic).  A coordinate map
+    is applied to the point and to the two corners of the box (right for maps that increase along each axis,
+    which is what `C11_pipeline_scaling` proves of both transforms)."""
+
+    def __init__(self, log, pt, bounds):
+        self._log, self.pt, self._bounds = log, pt, bounds
+
+    @property
+    def bounds(self):
+        return tuple(self._bounds)
+
+    def buffer(self, distance, **kw):
+        return _ShapelyStub.buffer_(self._log, self, distance)
+
+
+class _GeoJson:
+    def __init__(self, kind, shape):
+        self.kind, self.shape = kind, shape
+
+
+class _ShapelyStub:
+    """stands in for the `shapely` module inside `buffer_shapely_geometry`: records what the function asks of it"""
+
+    def __init__(self, real, log, kind):
+        self._real, self._log, self._kind = real, log, kind
+
+    def __getattr__(self, name):
+        return getattr(self._real, name)
+
+    def transform(self, geometry, transformation, include_z=False, **kw):
+        out = transformation(_SymArr([geometry.pt, geometry.bounds[:2], geometry.bounds[2:]]))
+        rows = [list(r) for r in out]
+        self._log.setdefault("transforms", []).append(rows[0])
+        return _SymShape(self._log, rows[0], rows[1] + rows[2])
+
+    @staticmethod
+    def buffer_(log, geometry, distance):
+        if "buffer" in log:
+            raise TypeError("shapely.buffer called more than once")
+        log["buffer"] = (geometry.pt, distance)
+        q = [Sym.var("qx"), Sym.var("qy")]
+        return _SymShape(log, q, [Sym.var("q0"), Sym.var("q1"), Sym.var("qm"), Sym.var("q3")])
+
+    def buffer(self, geometry, distance, *a, **kw):
+        return _ShapelyStub.buffer_(self._log, geometry, distance)
+
+    def clip_by_rect(self, geometry, xmin, ymin, xmax, ymax, **kw):
+        if "clip" in self._log:
+            raise TypeError("shapely.clip_by_rect called more than once")
+        self._log["clip"] = (geometry.pt, [xmin, ymin, xmax, ymax])
+        return _SymShape(self._log, geometry.pt, geometry.bounds)
+
+    def to_geojson(self, geometry, *a, **kw):
+        return _GeoJson(self._kind, geometry)
+
+
+class _JsonStub:
+    def __init__(self, real):
+        self._real = real
+
+    def __getattr__(self, name):
+        return getattr(self._real, name)
+
+    def loads(self, s, *a, **kw):
+        if isinstance(s, _GeoJson):
+            return {"type": s.kind, "coordinates": s.shape}
+        return self._real.loads(s, *a, **kw)
+
+
+class _PolyCtor:
+    def __init__(self, tag):
+        self.tag = tag
+
+    def __call__(self, coordinates):
+        return _Built(self.tag, coordinates)
+
+
+def _pipeline_thunk(ops, kind, tb, fb):
+    """run the real `buffer_shapely_geometry` on a symbolic shape; the value is everything it asked of shapely"""
+    import json as real_json
+    import shapely as real_shapely
+    from soundevent import data as real_data
+
+    def thunk():
+        log = {}
+        proxy = _DataProxy(real_data)
+        proxy.Polygon, proxy.MultiPolygon = _PolyCtor("Polygon"), _PolyCtor("MultiPolygon")
+        saved = {n: getattr(ops, n, None) for n in ("shapely", "json", "data")}
+        ops.shapely, ops.json, ops.data = _ShapelyStub(real_shapely, log, kind), _JsonStub(real_json), proxy
+        try:
+            g = _SymShape(log, [Sym.var("px"), Sym.var("py")],
+                          [Sym.var("p0"), Sym.var("p1"), Sym.var("p2"), Sym.var("p3")])
+            out = ops.buffer_shapely_geometry(g, time_buffer=tb, freq_buffer=fb)
+        finally:
+            for n, v in saved.items():
+                if v is not None:
+                    setattr(ops, n, v)
+        if not isinstance(out, _Built) or out.type != kind or not isinstance(out.coordinates, _SymShape):
+            raise TypeError(f"a clipped {kind} was not returned as data.{kind}")
+        if "buffer" not in log or "clip" not in log:
+            raise TypeError("the function did not buffer and clip through shapely")
+        if out.coordinates.pt is not log["clip"][0]:
+            raise TypeError("the returned geometry is not the clipped one")
+        return log
+    return thunk
+
+
+def _pipeline_leaf(log):
+    n = symx.num
+    sc, dist = log["buffer"]
+    un, rect = log["clip"]
+    return (f"some (({n(sc[0])}, {n(sc[1])}), {n(dist)}, ({n(un[0])}, {n(un[1])}), "
+            f"{n(rect[0])}, {n(rect[1])}, {n(rect[2])}, {n(rect[3])})")
+
+
+_PIPE_DEFS = ["SE.Buf.pipelineSkeleton", "SE.Buf.scalePt", "SE.Buf.unscalePt", "SE.Buf.clipRect", "SE.Buf.factor", "SE.MAXF"]
+
+
+def _pipeline_ties(ctx):
+    import soundevent.geometry.operations as ops
+    tb, fb = Sym.var("tb"), Sym.var("fb")
+    for kind in ("Polygon", "MultiPolygon"):
+        name = "ext_buffer_shapely_geometry_" + kind
+        tac = (f"unfold {name}\n  " + "\n  ".join(f"try unfold {d}" for d in _PIPE_DEFS)
+               + "\n  first | rfl | (split <;> split <;> simp) | grind (splits := 20) | se_close")
+        symx.sym_tie(ctx, name, _pipeline_thunk(ops, kind, tb, fb), ["px", "py", "qx", "qy", "qm", "tb", "fb"],
+                     "Option (SE.Pt × Rat × SE.Pt × Rat × Rat × Rat × Rat)",
+                     "some (SE.Buf.pipelineSkeleton px py qx qy qm tb fb)", _pipeline_leaf,
+                     tactic=tac, meta={"op": "buffer_shapely"})
+
+
 # ---------------------------------------------------------------- tie 2 generators
 def _g(ty, c):
     def enc(x):
@@ -724,6 +907,7 @@ def _monotone_stage(ctx):
 def run(ctx):
     ctx.stage("tables", _table_obligations, ctx)
     ctx.stage("symbolic-ties", _symbolic_ties, ctx)
+    ctx.stage("symbolic-pipeline", _pipeline_ties, ctx)
     ctx.stage("discharge", ctx.discharge, ["SoundeventModel.Buffer", "SoundeventModel.Tactics"])
     ctx.stage("corpus", ctx.run_corpus, OPS)
     ctx.stage("closed-forms", _closed_stage, ctx)
